@@ -53,7 +53,28 @@ def spec_ISCB(r):
     return a is not None and a == b
 
 
-SPECFUNS = {"DEC": spec_DEC, "CMPD": spec_CMPD, "CLABEL": spec_CLABEL, "ISCB": spec_ISCB}
+_RBF_MEMO = {}
+
+
+class _Deterministic:
+    """value of an uninterpreted function that is only known to be a function: the first observed value is
+    remembered per argument tuple, every later observation must agree"""
+
+    def __init__(self, key):
+        self.key = key
+
+    def __eq__(self, other):
+        return _RBF_MEMO.setdefault(self.key, other) == other
+
+    def __hash__(self):
+        return hash(self.key)
+
+
+def spec_RBF(reaction, label):
+    return _Deterministic((reaction, label))
+
+
+SPECFUNS = {"RBF": spec_RBF, "DEC": spec_DEC, "CMPD": spec_CMPD, "CLABEL": spec_CLABEL, "ISCB": spec_ISCB}
 
 # qualname -> (module, attribute path)
 TARGETS = {
